@@ -837,7 +837,7 @@ func (g *Gen) buildEntries(sv reflect.Value, f *FieldInfo, path []PathElem, dept
 			k0.Set(reflect.ValueOf(&x2))
 			g.Tags["key-text-collision"]++
 		}
-		if !isTwin && twin == nil && keyPool == nil && len(strKeys) >= 1 && g.Opt.Hostile && g.coin(0.15) {
+		if !isTwin && twin == nil && keyPool == nil && len(strKeys) >= 1 && made+2 <= n && g.Opt.Hostile && g.coin(0.25) {
 			// a sibling entry whose (first string) key is this entry's key behind something that looks
 			// like a module prefix: "x" and "m:x" are different keys
 			allPtr := true
